@@ -106,7 +106,8 @@ func deferredReceiveCancellable(c *Ctx) {
 			continue
 		}
 		n := 0
-		for _, fn := range an.WithClosures(exec) {
+		// the receive may sit in the response closure or in a method it calls (`ec.nextDeferredResult(ctx)`)
+		for _, fn := range c.genFuncs(g) {
 			for _, b := range fn.Blocks {
 				for _, in := range b.Instrs {
 					switch x := in.(type) {
